@@ -113,4 +113,79 @@ def available (r : Nat) (m : Nat) : Bool := (methodsOf r).contains m
 /-- r ⊑ r' : every spork active in r is active in r' -/
 def regimeLe (r r' : Nat) : Bool := r &&& r' == r
 
+/-! ### The reviewed gate table (C17): which spork introduces which (contract, method)
+
+`introducedBy` is written by hand and REVIEWED - it is NOT derived from the regenerated tables (a table derived from
+the code under test cannot notice a method that leaks into an earlier table). 0 = part of the protocol from genesis,
+1 = accelerator spork, 2 = bridge&liquidity spork, 3 = htlc spork. Methods a spork adds to a contract that already
+exists count like those of a new contract: accelerator.* except Donate and liquidity.Fund / liquidity.BurnZnn
+(accelerator spork), the liquidity staking / administration methods (bridge&liquidity spork).
+Props/C17Table.lean proves that the regenerated tables of all 8 regimes are exactly what this table says. -/
+def introducedBy : List (String × Nat) := [
+  ("accelerator.AddPhase", 1), ("accelerator.CreateProject", 1), ("accelerator.Donate", 0), ("accelerator.Update", 1),
+  ("accelerator.UpdatePhase", 1), ("accelerator.VoteByName", 1), ("accelerator.VoteByProdAddress", 1),
+  ("bridge.ChangeAdministrator", 2), ("bridge.ChangeTssECDSAPubKey", 2), ("bridge.Emergency", 2), ("bridge.Halt", 2),
+  ("bridge.NominateGuardians", 2), ("bridge.ProposeAdministrator", 2), ("bridge.Redeem", 2), ("bridge.RemoveNetwork", 2),
+  ("bridge.RemoveTokenPair", 2), ("bridge.RevokeUnwrapRequest", 2), ("bridge.SetAllowKeyGen", 2),
+  ("bridge.SetBridgeMetadata", 2), ("bridge.SetNetwork", 2), ("bridge.SetNetworkMetadata", 2),
+  ("bridge.SetOrchestratorInfo", 2), ("bridge.SetTokenPair", 2), ("bridge.Unhalt", 2), ("bridge.UnwrapToken", 2),
+  ("bridge.UpdateWrapRequest", 2), ("bridge.WrapToken", 2),
+  ("htlc.AllowProxyUnlock", 3), ("htlc.Create", 3), ("htlc.DenyProxyUnlock", 3), ("htlc.Reclaim", 3), ("htlc.Unlock", 3),
+  ("liquidity.BurnZnn", 1), ("liquidity.CancelLiquidityStake", 2), ("liquidity.ChangeAdministrator", 2),
+  ("liquidity.CollectReward", 2), ("liquidity.Donate", 0), ("liquidity.Emergency", 2), ("liquidity.Fund", 1),
+  ("liquidity.LiquidityStake", 2), ("liquidity.NominateGuardians", 2), ("liquidity.ProposeAdministrator", 2),
+  ("liquidity.SetAdditionalReward", 2), ("liquidity.SetIsHalted", 2), ("liquidity.SetTokenTuple", 2),
+  ("liquidity.UnlockLiquidityStakeEntries", 2), ("liquidity.Update", 0),
+  ("pillar.CollectReward", 0), ("pillar.Delegate", 0), ("pillar.DepositQsr", 0), ("pillar.Register", 0),
+  ("pillar.RegisterLegacy", 0), ("pillar.Revoke", 0), ("pillar.Undelegate", 0), ("pillar.Update", 0),
+  ("pillar.UpdatePillar", 0), ("pillar.WithdrawQsr", 0), ("plasma.CancelFuse", 0), ("plasma.Fuse", 0),
+  ("sentinel.CollectReward", 0), ("sentinel.DepositQsr", 0), ("sentinel.Register", 0), ("sentinel.Revoke", 0),
+  ("sentinel.Update", 0), ("sentinel.WithdrawQsr", 0), ("spork.ActivateSpork", 0), ("spork.CreateSpork", 0),
+  ("stake.Cancel", 0), ("stake.CollectReward", 0), ("stake.Stake", 0), ("stake.Update", 0), ("swap.RetrieveAssets", 0),
+  ("token.Burn", 0), ("token.IssueToken", 0), ("token.Mint", 0), ("token.UpdateToken", 0)]
+
+/-- the spork (0..3) that introduces the method; `none`: not a method of the protocol -/
+def ownerOf (key : String) : Option Nat := (introducedBy.find? (·.1 == key)).map (·.2)
+
+/-- is the spork with index k (0 = none needed) enforced, given the three activity flags -/
+def sporkOn (k : Nat) (acc bridge htlc : Bool) : Bool :=
+  match k with
+  | 0 => true
+  | 1 => acc
+  | 2 => bridge
+  | 3 => htlc
+  | _ => false
+
+/-- GetEmbeddedMethod's table selection `if htlc … else if bridge … else if accelerator … else origin`: the regime's
+    LEVEL is the index of the last enforced spork in the order accelerator < bridge&liquidity < htlc -/
+def level (acc bridge htlc : Bool) : Nat := if htlc then 3 else if bridge then 2 else if acc then 1 else 0
+
+def regimeAcc (r : Nat) : Bool := r % 2 == 1
+def regimeBridge (r : Nat) : Bool := r / 2 % 2 == 1
+def regimeHtlc (r : Nat) : Bool := r / 4 % 2 == 1
+def levelOfRegime (r : Nat) : Nat := level (regimeAcc r) (regimeBridge r) (regimeHtlc r)
+
+/-- send-time availability by the REVIEWED table: the method's spork is at or below the regime's level
+    (this is the code's rule, finding F17 included: a LATER spork switches the earlier sporks' methods on) -/
+def availableSpec (acc bridge htlc : Bool) (key : String) : Option Bool :=
+  (ownerOf key).map (fun k => decide (k ≤ level acc bridge htlc))
+
+/-- REVIEWED: the spork-introduced methods whose ReceiveBlock tests its own spork AGAIN (liquidity.go: the body of Fund
+    and BurnZnn runs under `if context.IsAcceleratorSporkEnforced()`): for these F17 stops at send-time acceptance - the
+    call is answered but moves nothing while the accelerator spork is not enforced for the acknowledged momentum -/
+def receiveGated : List String := ["liquidity.BurnZnn", "liquidity.Fund"]
+
+/-- receive time: may a call of the method, answered by a receive block acknowledging a momentum with these activity
+    flags, change anything (contract storage, balances other than the refund)? -/
+def mayExecute (acc bridge htlc : Bool) (key : String) : Option Bool :=
+  (ownerOf key).map (fun k => decide (k ≤ level acc bridge htlc) &&
+    (if receiveGated.contains key then sporkOn k acc bridge htlc else true))
+
+/-- the verdict the driver gives on an observed receive (`S-exec` line): `effect` = the receive block changed the
+    contract's storage or emitted a block other than the refund; `designed` = the harness built the call so that it must
+    take effect when the feature is on -/
+def execVerdict (acc bridge htlc : Bool) (key : String) (effect designed : Bool) : Option String :=
+  (mayExecute acc bridge htlc key).map (fun may =>
+    if effect && !may then "forbidden" else if designed && may && !effect then "missing" else "ok")
+
 end ZV.Spork
